@@ -9,6 +9,8 @@ parameters = stored fields for every droplet class.
 
 from __future__ import annotations
 
+import ast
+
 from ..core import Ctx
 from ..rules import io
 
@@ -34,9 +36,9 @@ def check(ctx: Ctx):
     ctx.decide(ok, "IOAGREE", "EmulsionTimeCourse:attrs[time]", (w, wr["time"][0]) if "time" in wr else w, "every frame's time is stored next to its dataset and read from there",
                "the frame time is not written to / read from dataset.attrs['time']")
     rv = view(m, r)
-    ap = [c for c in rv.calls() if U(c.func) == "obj.append"]
-    oka = len(ap) == 1 and kwarg(ap[0], "time") is not None and U(kwarg(ap[0], "time")) == "dataset.attrs['time']" and "_from_hdf_dataset(dataset)" in U(ap[0].args[0])
-    ctx.decide(oka, "IOAGREE", "EmulsionTimeCourse:reader", (r, ap[0]) if ap else r, "each frame is appended with its stored time", "frames are not appended with time=dataset.attrs['time']")
+    ap = [c for c in rv.calls() if isinstance(c.func, ast.Attribute) and c.func.attr == "append" and kwarg(c, "time") is not None]
+    oka = len(ap) == 1 and U(rv.expand(kwarg(ap[0], "time"), ap[0], stop=("dataset",))) == "dataset.attrs['time']" and U(rv.expand(ap[0].args[0], ap[0], stop=("dataset",))) == "Emulsion._from_hdf_dataset(dataset)"
+    ctx.decide(oka, "IOAGREE", "EmulsionTimeCourse:reader", (r, ap[0]) if ap else r, "each frame is appended with its stored time", "frames are not appended as (Emulsion._from_hdf_dataset(dataset), time=dataset.attrs['time'])")
     io.check_time_column(ctx)
     io.check_exact_eq(ctx)
     io.check_layouts(ctx)
